@@ -71,15 +71,17 @@ def _case(draw):
         return {"fields": fields, "inst": inst, "sem": [], "style": {}, "wrap": [], "trunc": None, "order": draw(_order()), "raw": raw}
     sem = []
     for _ in range(draw(st.sampled_from([0, 0, 0, 0, 0, 0, 1, 1, 2]))):
-        k = draw(st.integers(0, 3))
+        k = draw(st.integers(0, 5))
         if k == 0:
             sem.append(["swap", draw(st.sampled_from(names))])
         elif k == 1:
             sem.append(["drop", draw(st.sampled_from(names))])
         elif k == 2:
             sem.append(["wrap", draw(st.sampled_from([1, 2, 60]))])
-        else:
+        elif k == 3:
             sem.append(["garble", draw(st.sampled_from(names))])
+        else:
+            sem.append(["mistype", draw(st.sampled_from(names)), draw(st.sampled_from([True, False, None, 1.5, 0, 1, "", "7", [1], {"k": 1}, "true", "yes"]))])
     style = {"kq": draw(st.sampled_from(['"', '"', '"', "'", ""])), "vq": draw(st.sampled_from(['"', '"', "'"])),
              "tc": draw(st.sampled_from([False, False, True])), "lit": draw(st.sampled_from(["json", "json", "py", "js-undefined"]))}
     wrap = draw(st.lists(st.sampled_from(WRAPS), max_size=3))
@@ -97,6 +99,18 @@ def _order():
 
 def strategy(tier):
     return _case()
+
+
+EXHAUSTIVE_NOTE = {"quick": "single-field schemas: 9 field types x 14 JSON values (right and wrong type) x 4 strategy orders = 504 raw texts, complete",
+                   "thorough": "same table, complete"}
+
+
+def enumerate_cases(tier):
+    values = [True, False, None, 1.5, 0, 1, -3, "", "7", "true", "yes", "x", [1], {"k": 1}]
+    for t in TYPES:
+        for v in values:
+            for order in (None, [2], [0, 2], [3, 2, 1, 0]):
+                yield {"fields": [["f", t]], "inst": {"f": 0}, "sem": [["mistype", "f", v]], "style": {}, "wrap": [], "trunc": None, "order": order, "raw": None}
 
 
 def selftest():
@@ -128,8 +142,12 @@ def _build_raw(case):
     obj = dict(case["inst"])
     types = dict((n, t) for n, t in case["fields"])
     corrupted = False
-    for op, arg in case["sem"]:
-        if op == "swap" and arg in obj:
+    for semop in case["sem"]:
+        op, arg = semop[0], semop[1]
+        if op == "mistype" and arg in obj:
+            obj[arg] = semop[2]          # a JSON value of (possibly) the wrong type for the field: bool for str, number for bool, ...
+            corrupted = True
+        elif op == "swap" and arg in obj:
             v = obj[arg]
             if isinstance(v, bool):
                 obj[arg] = "yes" if v else "no"
